@@ -24,19 +24,22 @@ Proof.
 Qed.
 
 Section Judge.
-Variables (ao : list text) (regs : list reg) (W : world) (ri : rinfo).
-Hypothesis HR : w_reg W = register_all ao regs.
-Hypothesis Hwf : Forall reg_wf regs.
-Hypothesis Hk : NoDup (map key regs).
-Hypothesis Hna : no_accept regs.
-Hypothesis Hor : order_respects regs.
-Hypothesis Hrs : forall e, NoDup (q_req_sro (exc_request spec_params W ri e)).
-Hypothesis Hcs : forall e, NoDup (x_sro (find_exc (w_excs W) e)).
+Variables (b : bool) (regs : list reg) (W : world) (ri : rinfo).
+Notation SP := (spec_params_b b).
+(* a direct invoke_exception_view(secure=False) call is covered only when permissive calls check predicates *)
+Hypothesis Hsec : b = true \/ sec_of (ri_under ri) = true.
+(* every exception-view lookup in the registry of the world is allowed by the declarative order over [regs]
+   (C03's lookup theorem; discharged below for registries built by register_all) *)
+Hypothesis Hlook : forall e,
+  spec_ok exc_classifier_id regs (exc_request SP W ri e)
+          (call_view (w_reg W) exc_classifier_id (exc_request SP W ri e)) = true.
 (* the resource is not an exception; what the framework makes inside invoke_exception_view is what it is *)
 Hypothesis Hres : isa W cn_Exception ctx_resource = false.
 Hypothesis Hfresh : forall site, In site [site_under; site_tween] ->
   isa W cn_HTTPNotFound (fresh_nf site) = true /\ isa W cn_HTTPNotFound (fresh_pme site) = true
-  /\ isa W cn_Exception (fresh_pme site) = true.
+  /\ isa W cn_Exception (fresh_pme site) = true
+  /\ isa W cn_HTTPForbidden (fresh_forb site) = true /\ isa W cn_Exception (fresh_forb site) = true
+  /\ isa W cn_HTTPNotFound (fresh_forb site) = false.
 
 Lemma exc_not_resource e : isa W cn_Exception e = true -> N.eqb e ctx_resource = false.
 Proof.
@@ -45,61 +48,58 @@ Proof.
 Qed.
 
 (* shape of the log written by invoke_exception_view *)
-Lemma iev_log site rr e st :
-  exists evs, st_log (snd (iev spec_params W ri site rr e st)) = st_log st ++ evs
+Lemma iev_log site rr sec e st :
+  exists evs, st_log (snd (iev SP W ri site rr sec e st)) = st_log st ++ evs
               /\ (evs = [] \/ exists t s, evs = [EBody t e s]).
 Proof.
   rewrite iev_unfold.
-  pose proof (hide_attrs_fst (p_hidden spec_params) (iev_body spec_params W ri site e) (st_attrs st)) as Hfst.
-  destruct (hide_attrs (p_hidden spec_params) (iev_body spec_params W ri site e) (st_attrs st)) as [[res evs] attrs'].
+  pose proof (hide_attrs_fst (p_hidden SP) (iev_body SP W ri site sec e) (st_attrs st)) as Hfst.
+  destruct (hide_attrs (p_hidden SP) (iev_body SP W ri site sec e) (st_attrs st)) as [[res evs] attrs'].
   simpl fst in Hfst. exists evs. split.
   - destruct res as [[r|e2]|]; reflexivity.
   - unfold iev_body in Hfst.
-    destruct (call_view (w_reg W) exc_classifier_id (exc_request spec_params W ri e)) as [t| |].
+    destruct (call_view_sec SP (w_reg W) sec exc_classifier_id (exc_request SP W ri e)) as [t| |].
     + unfold run_body in Hfst.
-      destruct (b_perm (body_of (w_bodies W) t) && ri_deny ri).
+      destruct (sec && b_perm (body_of (w_bodies W) t) && ri_deny ri).
       * simpl in Hfst. inversion Hfst. left. reflexivity.
       * right. destruct (b_act (body_of (w_bodies W) t));
-          try destruct (p_default_view_ctx spec_params && negb (N.eqb (status_of W e) 0));
+          try match type of Hfst with context [if ?c then _ else _] => destruct c end;
           simpl in Hfst; inversion Hfst; eauto.
     + simpl in Hfst. inversion Hfst. left. reflexivity.
     + simpl in Hfst. inversion Hfst. left. reflexivity.
 Qed.
 
 Lemma lookup_ok e :
-  spec_ok exc_classifier_id regs (exc_request spec_params W ri e)
-          (call_view (w_reg W) exc_classifier_id (exc_request spec_params W ri e)) = true.
-Proof. rewrite HR. apply excview_nearest_class; auto. Qed.
+  spec_ok exc_classifier_id regs (exc_request SP W ri e)
+          (call_view (w_reg W) exc_classifier_id (exc_request SP W ri e)) = true.
+Proof. apply Hlook. Qed.
 
-Lemma perm_of_winner ws t w :
-  existsb (fun w => b_perm (body_of (w_bodies W) (r_tag w))) ws && ri_deny ri = false ->
-  In w ws -> r_tag w = t -> b_perm (body_of (w_bodies W) t) && ri_deny ri = false.
-Proof.
-  intros H Hin Ht. destruct (ri_deny ri); [|apply andb_false_r].
-  rewrite andb_true_r in *. destruct (b_perm (body_of (w_bodies W) t)) eqn:E; [|reflexivity].
-  rewrite <- H. symmetry. apply existsb_exists. exists w. split; [exact Hin|]. rewrite Ht. exact E.
-Qed.
-
-Lemma tag_in_winners (ws : list reg) w t : In w ws -> r_tag w = t -> existsb (fun w => N.eqb (r_tag w) t) ws = true.
-Proof. intros Hin Ht. apply existsb_exists. exists w. split; [exact Hin|]. apply N.eqb_eq. exact Ht. Qed.
+Lemma winner_in (ws : list reg) w t (f : N -> bool) :
+  In w ws -> r_tag w = t -> f t = true -> existsb (fun w => f (r_tag w)) ws = true.
+Proof. intros Hin Ht Hf. apply existsb_exists. exists w. split; [exact Hin|]. rewrite Ht. exact Hf. Qed.
 
 (* the judge accepts a direct invoke_exception_view call of the model *)
-Lemma iev_judge site rr e st evs :
-  In site [site_under; site_tween] ->
-  let r := iev spec_params W ri site rr e st in
+Lemma iev_judge site rr sec e st evs :
+  In site [site_under; site_tween] -> sec = true \/ b = true ->
+  isa W cn_Exception e = true ->
+  let r := iev SP W ri site rr sec e st in
   st_log (snd r) = st_log st ++ evs ->
-  judge_render regs W ri (Some rr) e (snap (st_attrs st)) evs (fst r) (snap (st_attrs (snd r))) = true.
+  judge_render regs W ri (Some rr) sec e (snap (st_attrs st)) evs (fst r) (snap (st_attrs (snd r))) = true.
 Proof.
-  intros Hsite r Hlog. subst r. unfold judge_render.
+  intros Hsite Hs Hisa r Hlog. subst r. unfold judge_render.
   pose proof (lookup_ok e) as Hok.
-  destruct (spec_winners exc_classifier_id regs (exc_request spec_params W ri e)) as [|w0 ws0] eqn:Hw.
-  - pose proof (spec_ok_not_found _ _ _ _ Hok Hw) as Hnf.
-    pose proof (iev_not_found spec_params W ri site rr e st spec_hidden_nodup Hnf) as [Hl [Ha Ho]].
+  assert (Hcv : call_view_sec SP (w_reg W) sec exc_classifier_id (exc_request SP W ri e)
+                = call_view (w_reg W) exc_classifier_id (exc_request SP W ri e)).
+  { apply call_view_sec_eq. destruct Hs as [Hs|Hs]; [left; exact Hs|right; rewrite Hs; reflexivity]. }
+  change (exc_request spec_params W ri e) with (exc_request SP W ri e).
+  destruct (Hfresh site Hsite) as [F1 [F2 [F3 [F4 [F5 F6]]]]].
+  destruct (spec_winners exc_classifier_id regs (exc_request SP W ri e)) as [|w0 ws0] eqn:Hw.
+  - pose proof (spec_ok_not_found _ _ _ _ Hok Hw) as Hnf. rewrite <- Hcv in Hnf.
+    pose proof (iev_not_found SP W ri site rr sec e st (spec_hidden_nodup b) Hnf) as [Hl [Ha Ho]].
     rewrite Hl in Hlog. rewrite <- (app_nil_r (st_log st)) in Hlog at 1. apply app_inv_head in Hlog. subst evs.
-    rewrite (snap_restored _ _ Ha), snap_eqb_refl.
-    destruct (Hfresh site Hsite) as [F1 [F2 F3]].
-    assert (Hfc : fresh_of_class (p_none_raises spec_params) site = fresh_nf site) by reflexivity.
-    assert (Hic : p_iev_catches spec_params = cn_Exception) by reflexivity.
+    rewrite (snap_restored b _ _ Ha), snap_eqb_refl.
+    assert (Hfc : fresh_of_class (p_none_raises SP) site = fresh_nf site) by reflexivity.
+    assert (Hic : p_iev_catches SP = cn_Exception) by reflexivity.
     assert (L1 : N.leb 1000 (fresh_nf site) = true) by (unfold fresh_nf; apply N.leb_le; lia).
     assert (L2 : N.leb 1000 (fresh_pme site) = true) by (unfold fresh_pme; apply N.leb_le; lia).
     rewrite Hfc, Hic, F3 in Ho.
@@ -108,110 +108,128 @@ Proof.
     + rewrite L1, F1. reflexivity.
     + apply outcome_eqb_refl.
     + rewrite L2, F2. reflexivity.
-  - assert (Hne : spec_winners exc_classifier_id regs (exc_request spec_params W ri e) <> []) by (rewrite Hw; discriminate).
-    destruct (existsb (fun w => b_perm (body_of (w_bodies W) (r_tag w))) (w0 :: ws0) && ri_deny ri) eqn:Hsc; [reflexivity|].
+  - assert (Hne : spec_winners exc_classifier_id regs (exc_request SP W ri e) <> []) by (rewrite Hw; discriminate).
     destruct (spec_ok_found _ _ _ _ Hok Hne) as [t Ht]. rewrite Ht in Hok.
     destruct (spec_ok_ran _ _ _ _ Hok) as [w [Hin Htag]]. rewrite Hw in Hin.
-    pose proof (perm_of_winner _ _ _ Hsc Hin Htag) as Hperm.
-    pose proof (iev_view_runs W ri site rr e st t Ht Hperm) as [Hl Hr].
-    rewrite Hl in Hlog. apply app_inv_head in Hlog. subst evs.
-    rewrite (tag_in_winners _ _ _ Hin Htag), N.eqb_refl, snap_eqb_refl. cbn [andb].
-    unfold rendered in Hr.
-    destruct (b_act (body_of (w_bodies W) t)) as [| |v].
-    + destruct Hr as [-> ->]. rewrite outcome_eqb_refl, snap_eqb_refl. reflexivity.
-    + destruct (N.eqb (status_of W e) 0); [reflexivity|].
-      destruct Hr as [-> ->]. rewrite outcome_eqb_refl, snap_eqb_refl. reflexivity.
-    + destruct Hr as [-> Hr]. destruct (isa W cn_HTTPNotFound v); [reflexivity|].
-      rewrite snap_eqb_refl. simpl. destruct rr; rewrite Hr; apply outcome_eqb_refl.
+    rewrite <- Hcv in Ht.
+    apply (winner_in _ w t (judge_winner W ri (Some rr) sec e (snap (st_attrs st)) evs
+                              (fst (iev SP W ri site rr sec e st)) (snap (st_attrs (snd (iev SP W ri site rr sec e st))))) Hin Htag).
+    unfold judge_winner.
+    destruct (sec && b_perm (body_of (w_bodies W) t) && ri_deny ri) eqn:Hperm.
+    + assert (Hsm : N.eqb site site_main = false) by (destruct Hsite as [<-|[<-|[]]]; reflexivity).
+      pose proof (iev_refused b W ri site rr sec e st t Hsm Ht Hperm) as [Hl [Ha Ho]].
+      rewrite Hl in Hlog. rewrite <- (app_nil_r (st_log st)) in Hlog at 1. apply app_inv_head in Hlog. subst evs.
+      rewrite Ha, snap_eqb_refl, Ho, F5. cbn [andb].
+      assert (L3 : N.leb 1000 (fresh_forb site) = true) by (unfold fresh_forb; apply N.leb_le; lia).
+      destruct rr; cbn [andb]; cbv beta iota.
+      * apply outcome_eqb_refl.
+      * rewrite L3, F4. reflexivity.
+    + pose proof (iev_view_runs b W ri site rr sec e st t Hisa Ht Hperm) as [Hl Hr].
+      rewrite Hl in Hlog. apply app_inv_head in Hlog. subst evs.
+      rewrite !N.eqb_refl, snap_eqb_refl. cbn [andb].
+      unfold rendered in Hr.
+      destruct (b_act (body_of (w_bodies W) t)) as [| |v].
+      * destruct Hr as [-> ->]. rewrite outcome_eqb_refl, snap_eqb_refl. reflexivity.
+      * destruct (N.eqb (status_of W e) 0); [reflexivity|].
+        destruct Hr as [-> ->]. rewrite outcome_eqb_refl, snap_eqb_refl. reflexivity.
+      * destruct Hr as [-> Hr]. destruct (isa W cn_HTTPNotFound v); [reflexivity|].
+        rewrite snap_eqb_refl. simpl. destruct rr; rewrite Hr; apply outcome_eqb_refl.
 Qed.
 
 (* ... and what the excview tween makes of an exception *)
 Lemma excview_log e st :
-  exists evs, st_log (snd (excview_tween spec_params W ri (Raise e) st)) = st_log st ++ evs
+  exists evs, st_log (snd (excview_tween SP W ri (Raise e) st)) = st_log st ++ evs
               /\ (evs = [] \/ exists t s, evs = [EBody t e s]).
 Proof.
-  unfold excview_tween. destruct (isa W (p_tween_catches spec_params) e).
-  - destruct (iev_log site_tween false e st) as [evs [Hl Hs]].
-    destruct (iev spec_params W ri site_tween false e st) as [[r|e2] st']; simpl snd in Hl.
+  unfold excview_tween. destruct (isa W (p_tween_catches SP) e).
+  - destruct (iev_log site_tween false true e st) as [evs [Hl Hs]].
+    destruct (iev SP W ri site_tween false true e st) as [[r|e2] st']; simpl snd in Hl.
     + exists evs. split; [exact Hl|exact Hs].
-    + destruct (isa W (p_handler_catches spec_params) e2); exists evs; (split; [exact Hl|exact Hs]).
+    + destruct (isa W (p_handler_catches SP) e2); exists evs; (split; [exact Hl|exact Hs]).
   - exists []. simpl. rewrite app_nil_r. auto.
 Qed.
 
 Lemma excview_judge e st evs :
   isa W cn_Exception e = true ->
-  let r := excview_tween spec_params W ri (Raise e) st in
+  let r := excview_tween SP W ri (Raise e) st in
   st_log (snd r) = st_log st ++ evs ->
-  judge_render regs W ri None e (snap (st_attrs st)) evs (fst r) (snap (st_attrs (snd r))) = true.
+  judge_render regs W ri None true e (snap (st_attrs st)) evs (fst r) (snap (st_attrs (snd r))) = true.
 Proof.
   intros Hisa r Hlog. subst r. unfold judge_render.
   pose proof (lookup_ok e) as Hok.
-  destruct (spec_winners exc_classifier_id regs (exc_request spec_params W ri e)) as [|w0 ws0] eqn:Hw.
+  change (exc_request spec_params W ri e) with (exc_request SP W ri e).
+  destruct (Hfresh site_tween (or_intror (or_introl eq_refl))) as [F1 [F2 [F3 [F4 [F5 F6]]]]].
+  destruct (spec_winners exc_classifier_id regs (exc_request SP W ri e)) as [|w0 ws0] eqn:Hw.
   - pose proof (spec_ok_not_found _ _ _ _ Hok Hw) as Hnf.
-    assert (Hf : fresh_ok spec_params W site_tween).
-    { destruct (Hfresh site_tween (or_intror (or_introl eq_refl))) as [F1 [F2 F3]]. split; [exact F2|exact F1]. }
-    pose proof (no_view_propagates spec_params W ri e st spec_hidden_nodup eq_refl Hf Hnf) as [Ho [Hl Ha]].
+    assert (Hf : fresh_ok SP W site_tween) by (split; [exact F2|exact F1]).
+    pose proof (no_view_propagates SP W ri e st (spec_hidden_nodup b) eq_refl Hf Hnf) as [Ho [Hl Ha]].
     rewrite Hl in Hlog. rewrite <- (app_nil_r (st_log st)) in Hlog at 1. apply app_inv_head in Hlog. subst evs.
-    rewrite (snap_restored _ _ Ha), snap_eqb_refl, Ho. simpl. apply N.eqb_refl.
-  - assert (Hne : spec_winners exc_classifier_id regs (exc_request spec_params W ri e) <> []) by (rewrite Hw; discriminate).
-    destruct (existsb (fun w => b_perm (body_of (w_bodies W) (r_tag w))) (w0 :: ws0) && ri_deny ri) eqn:Hsc; [reflexivity|].
+    rewrite (snap_restored b _ _ Ha), snap_eqb_refl, Ho. simpl. apply N.eqb_refl.
+  - assert (Hne : spec_winners exc_classifier_id regs (exc_request SP W ri e) <> []) by (rewrite Hw; discriminate).
     destruct (spec_ok_found _ _ _ _ Hok Hne) as [t Ht]. rewrite Ht in Hok.
     destruct (spec_ok_ran _ _ _ _ Hok) as [w [Hin Htag]]. rewrite Hw in Hin.
-    pose proof (perm_of_winner _ _ _ Hsc Hin Htag) as Hperm.
-    pose proof (excview_view_runs W ri e st t Hisa Ht Hperm) as [Hl Hr].
-    rewrite Hl in Hlog. apply app_inv_head in Hlog. subst evs.
-    rewrite (tag_in_winners _ _ _ Hin Htag), N.eqb_refl, snap_eqb_refl. cbn [andb].
-    unfold rendered in Hr.
-    destruct (b_act (body_of (w_bodies W) t)) as [| |v].
-    + destruct Hr as [-> ->]. rewrite outcome_eqb_refl, snap_eqb_refl. reflexivity.
-    + destruct (N.eqb (status_of W e) 0); [reflexivity|].
-      destruct Hr as [-> ->]. rewrite outcome_eqb_refl, snap_eqb_refl. reflexivity.
-    + destruct Hr as [-> Hr]. destruct (isa W cn_HTTPNotFound v); [reflexivity|].
-      rewrite snap_eqb_refl, (Hr eq_refl). simpl. apply N.eqb_refl.
+    apply (winner_in _ w t (judge_winner W ri None true e (snap (st_attrs st)) evs
+                              (fst (excview_tween SP W ri (Raise e) st))
+                              (snap (st_attrs (snd (excview_tween SP W ri (Raise e) st))))) Hin Htag).
+    unfold judge_winner. cbn [andb].
+    destruct (b_perm (body_of (w_bodies W) t) && ri_deny ri) eqn:Hperm.
+    + pose proof (excview_refused b W ri e st t Hisa F6 Ht Hperm) as [Ho [Hl Ha]].
+      rewrite Hl in Hlog. rewrite <- (app_nil_r (st_log st)) in Hlog at 1. apply app_inv_head in Hlog. subst evs.
+      rewrite Ha, snap_eqb_refl, Ho, F4. cbn [andb].
+      assert (L3 : N.leb 1000 (fresh_forb site_tween) = true) by reflexivity. rewrite L3. reflexivity.
+    + pose proof (excview_view_runs b W ri e st t Hisa Ht Hperm) as [Hl Hr].
+      rewrite Hl in Hlog. apply app_inv_head in Hlog. subst evs.
+      rewrite !N.eqb_refl, snap_eqb_refl. cbn [andb].
+      unfold rendered in Hr.
+      destruct (b_act (body_of (w_bodies W) t)) as [| |v].
+      * destruct Hr as [-> ->]. rewrite outcome_eqb_refl, snap_eqb_refl. reflexivity.
+      * destruct (N.eqb (status_of W e) 0); [reflexivity|].
+        destruct Hr as [-> ->]. rewrite outcome_eqb_refl, snap_eqb_refl. reflexivity.
+      * destruct Hr as [-> Hr]. destruct (isa W cn_HTTPNotFound v); [reflexivity|].
+        rewrite snap_eqb_refl, (Hr eq_refl). simpl. apply N.eqb_refl.
 Qed.
 
 (* the ordinary part of the request writes at most one ordinary-body event *)
 Lemma main_log st :
-  exists evs, st_log (snd (main_handler spec_params W ri st)) = st_log st ++ evs
+  exists evs, st_log (snd (main_handler SP W ri st)) = st_log st ++ evs
               /\ (evs = [] \/ exists t s, evs = [EBody t ctx_resource s]).
 Proof.
   unfold main_handler. destruct (ri_root_raise ri); [exists []; simpl; rewrite app_nil_r; auto|].
   destruct (call_view (w_reg W) view_classifier (ri_req ri)) as [t| |];
     try solve [exists []; simpl; rewrite app_nil_r; auto].
-  unfold run_body. destruct (b_perm (body_of (w_bodies W) t) && ri_deny ri).
+  unfold run_body. destruct (true && b_perm (body_of (w_bodies W) t) && ri_deny ri).
   - exists []. simpl. rewrite app_nil_r. auto.
   - destruct (b_act (body_of (w_bodies W) t));
-      try destruct (p_default_view_ctx spec_params && negb (N.eqb (status_of W ctx_resource) 0));
+      try match goal with |- context [if ?c then _ else _] => destruct c end;
       simpl; eexists; split; try reflexivity; right; eauto.
 Qed.
 
-Definition rr_of (u : under_prog) : bool := match u with UCatch rr _ => rr | _ => false end.
-
 Lemma under_judge a0 :
-  let r := under_tween spec_params W ri (mkSt a0 []) in
-  no_probe (st_log (snd r)) /\ judge_under regs W ri (rr_of (ri_under ri)) [] (st_log (snd r)) = true.
+  let r := under_tween SP W ri (mkSt a0 []) in
+  no_probe (st_log (snd r)) /\ judge_under regs W ri (rr_of (ri_under ri)) (sec_of (ri_under ri)) [] (st_log (snd r)) = true.
 Proof.
   intros r. subst r. unfold under_tween.
   destruct (main_log (mkSt a0 [])) as [evs0 [Hl0 Hs0]]. simpl in Hl0.
-  assert (Hn0 : no_probe evs0 /\ forall rr l, judge_under regs W ri rr [] (evs0 ++ l) = judge_under regs W ri rr [] l).
+  assert (Hn0 : no_probe evs0 /\ forall rr sec l, judge_under regs W ri rr sec [] (evs0 ++ l) = judge_under regs W ri rr sec [] l).
   { destruct Hs0 as [->|[t [s ->]]].
     - split; [intros o s H; destruct H|reflexivity].
-    - split; [intros o s' [H|[]]; discriminate H|]. intros rr l. simpl. reflexivity. }
+    - split; [intros o s' [H|[]]; discriminate H|]. intros rr sec l. simpl. reflexivity. }
   destruct Hn0 as [Hn0 Hj0].
-  destruct (ri_under ri) as [|e|rr thn] eqn:Hu.
+  destruct (ri_under ri) as [|e|rr sec thn] eqn:Hu.
   - rewrite Hl0. split; [exact Hn0|]. rewrite <- (app_nil_r evs0). rewrite Hj0. reflexivity.
   - simpl. split; [intros o s H; destruct H|reflexivity].
-  - destruct (main_handler spec_params W ri (mkSt a0 [])) as [o st1] eqn:Hm. simpl in Hl0.
-    assert (Hbase : no_probe (st_log st1) /\ judge_under regs W ri rr [] (st_log st1) = true).
+  - destruct (main_handler SP W ri (mkSt a0 [])) as [o st1] eqn:Hm. simpl in Hl0.
+    assert (Hbase : no_probe (st_log st1) /\ judge_under regs W ri rr sec [] (st_log st1) = true).
     { rewrite Hl0. split; [exact Hn0|]. rewrite <- (app_nil_r evs0). rewrite Hj0. reflexivity. }
     destruct o as [r|e].
     + destruct thn; simpl; exact Hbase.
     + destruct (isa W cn_Exception e) eqn:Hisa.
-      * destruct (iev_log site_under rr e st1) as [evs [Hl Hs]].
-        pose proof (iev_judge site_under rr e st1 evs (or_introl eq_refl) Hl) as Hj.
-        destruct (iev spec_params W ri site_under rr e st1) as [o2 st2]. simpl in Hl, Hj.
+      * destruct (iev_log site_under rr sec e st1) as [evs [Hl Hs]].
+        assert (Hs' : sec = true \/ b = true) by (destruct Hsec as [Hb|Hb]; [right; exact Hb|left; exact Hb]).
+        pose proof (iev_judge site_under rr sec e st1 evs (or_introl eq_refl) Hs' Hisa Hl) as Hj.
+        destruct (iev SP W ri site_under rr sec e st1) as [o2 st2]. simpl in Hl, Hj.
         assert (Hgoal : no_probe (st_log st2 ++ [EIev e (snap (st_attrs st1)) o2 (snap (st_attrs st2))])
-                        /\ judge_under regs W ri rr [] (st_log st2 ++ [EIev e (snap (st_attrs st1)) o2 (snap (st_attrs st2))]) = true).
+                        /\ judge_under regs W ri rr sec [] (st_log st2 ++ [EIev e (snap (st_attrs st1)) o2 (snap (st_attrs st2))]) = true).
         { rewrite Hl, Hl0. rewrite <- app_assoc. split.
           - intros o s H. apply in_app_or in H. destruct H as [H|H]; [exact (Hn0 o s H)|].
             apply in_app_or in H. destruct H as [H|[H|[]]]; [|discriminate H].
@@ -224,36 +242,36 @@ Proof.
 Qed.
 
 (* the judge accepts every trace of the model *)
-Theorem judge_accepts_model : judge regs W ri (run_request spec_params W ri) = true.
+Theorem judge_accepts_model : judge regs W ri (run_request SP W ri) = true.
 Proof.
   unfold run_request.
   pose proof (under_judge (init_attrs ri)) as [Hnp Hju].
-  destruct (under_tween spec_params W ri (mkSt (init_attrs ri) [])) as [o1 st1]. simpl in Hnp, Hju.
+  destruct (under_tween SP W ri (mkSt (init_attrs ri) [])) as [o1 st1]. simpl in Hnp, Hju.
   unfold add_log. simpl st_attrs. simpl st_log.
   set (st1' := mkSt (st_attrs st1) (st_log st1 ++ [EProbe o1 (snap (st_attrs st1))])).
   assert (Hshape : exists evs,
-            st_log (snd (excview_tween spec_params W ri o1 st1')) = st_log st1' ++ evs
+            st_log (snd (excview_tween SP W ri o1 st1')) = st_log st1' ++ evs
             /\ match o1 with
-               | Resp _ => evs = [] /\ excview_tween spec_params W ri o1 st1' = (o1, st1')
+               | Resp _ => evs = [] /\ excview_tween SP W ri o1 st1' = (o1, st1')
                | Raise e =>
                    if isa W cn_Exception e
-                   then judge_render regs W ri None e (snap (st_attrs st1')) evs
-                          (fst (excview_tween spec_params W ri o1 st1')) (snap (st_attrs (snd (excview_tween spec_params W ri o1 st1')))) = true
-                   else evs = [] /\ excview_tween spec_params W ri o1 st1' = (o1, st1')
+                   then judge_render regs W ri None true e (snap (st_attrs st1')) evs
+                          (fst (excview_tween SP W ri o1 st1')) (snap (st_attrs (snd (excview_tween SP W ri o1 st1')))) = true
+                   else evs = [] /\ excview_tween SP W ri o1 st1' = (o1, st1')
                end).
   { destruct o1 as [r|e].
     - exists []. simpl. rewrite app_nil_r. auto.
     - destruct (isa W cn_Exception e) eqn:Hisa.
       + destruct (excview_log e st1') as [evs [Hl _]]. exists evs. split; [exact Hl|].
         apply excview_judge; assumption.
-      + exists []. rewrite (not_caught_passes spec_params W ri e st1' Hisa). simpl. rewrite app_nil_r. auto. }
+      + exists []. rewrite (not_caught_passes SP W ri e st1' Hisa). simpl. rewrite app_nil_r. auto. }
   destruct Hshape as [evs [Hl Hcase]].
-  destruct (excview_tween spec_params W ri o1 st1') as [o2 st2] eqn:Hex. simpl in Hl.
-  unfold judge. rewrite Hl. subst st1'. simpl st_log. rewrite <- !app_assoc. simpl app.
+  destruct (excview_tween SP W ri o1 st1') as [o2 st2] eqn:Hex. simpl in Hl.
+  unfold judge, judge_gen. rewrite Hl. subst st1'. simpl st_log. rewrite <- !app_assoc. simpl app.
   rewrite (split_probe_app (st_log st1) [] o1 (snap (st_attrs st1)) _ Hnp).
   rewrite rev_unit. cbv beta iota. rewrite rev_involutive.
   change (rev [] ++ st_log st1) with (st_log st1).
-  unfold rr_of in Hju. rewrite Hju. cbn [andb].
+  rewrite Hju. cbn [andb orb].
   assert (Hfin : opt_N_eqb (aget hn_exception (st_attrs st2)) (nth 2 (snap (st_attrs st2)) None) = true)
     by (rewrite snap_eq; simpl; apply opt_N_eqb_refl).
   rewrite Hfin. cbn [andb].
@@ -267,6 +285,82 @@ Proof.
 Qed.
 
 End Judge.
+
+(* ------------------------------------------------------------------ *)
+(* discharging the lookup hypothesis; the registrations the directives produce *)
+
+Lemma lookup_ok_register_all b ao regs W ri :
+  w_reg W = register_all ao regs ->
+  Forall reg_wf regs -> NoDup (map key regs) -> no_accept regs -> order_respects regs ->
+  (forall e, NoDup (q_req_sro (exc_request (spec_params_b b) W ri e))) ->
+  (forall e, NoDup (x_sro (find_exc (w_excs W) e))) ->
+  forall e, spec_ok exc_classifier_id regs (exc_request (spec_params_b b) W ri e)
+              (call_view (w_reg W) exc_classifier_id (exc_request (spec_params_b b) W ri e)) = true.
+Proof.
+  intros HR Hwf Hk Hna Hor Hrs Hcs e. rewrite HR. apply excview_nearest_class; auto.
+Qed.
+
+(* every registration produced from the declarations is made by PredicateList.make from the keyword arguments *)
+Lemma regs_of_decl_made P names nm d : Forall (made_by names) (regs_of_decl P names nm d).
+Proof.
+  unfold regs_of_decl. destruct (effective_ctx P nm d) as [[c xonly] isexc].
+  destruct (xonly && negb isexc); [constructor|].
+  apply Forall_app. split.
+  - destruct xonly; [constructor|]. unfold opt_list.
+    destruct (reg_of_args names view_classifier (with_ctx (d_args d) c)) eqn:E; [|constructor].
+    constructor; [|constructor]. exists view_classifier, (with_ctx (d_args d) c). exact E.
+  - destruct isexc; [|constructor]. unfold opt_list.
+    destruct (reg_of_args names exc_classifier_id (with_ctx (d_args d) c)) eqn:E; [|constructor].
+    constructor; [|constructor]. exists exc_classifier_id, (with_ctx (d_args d) c). exact E.
+Qed.
+
+Lemma regs_upto_made P names nm user ph : Forall (made_by names) (regs_upto P names nm user ph).
+Proof.
+  unfold regs_upto. apply Forall_forall. intros v Hv. apply in_flat_map in Hv.
+  destruct Hv as [d [_ Hv]]. pose proof (regs_of_decl_made P names nm d) as H.
+  rewrite Forall_forall in H. exact (H v Hv).
+Qed.
+
+Lemma reg_of_args_accept names cls a v : reg_of_args names cls a = Some v -> r_accept v = a_accept a.
+Proof.
+  unfold reg_of_args. destruct (make names (args_kw a)); simpl; [|discriminate].
+  intros H. inversion H. reflexivity.
+Qed.
+
+Lemma default_decls_no_accept nm ctxs i d : In d (default_decls nm ctxs i) -> a_accept (d_args d) = None.
+Proof.
+  revert i. induction ctxs as [|c r IH]; intros i H; [destruct H|].
+  destruct H as [<-|H]; [reflexivity|exact (IH _ H)].
+Qed.
+
+(* C03's hypotheses on the registration list, for the registrations the directives produce: well-formed
+   phashes, orders that respect the number of predicates, no accept= (when no declaration has one) *)
+Theorem regs_upto_hyps P names nm user ph :
+  (length names <= 20)%nat ->
+  Forall (fun d => a_accept (d_args d) = None) user ->
+  Forall (fun v => (n_preds v <= 400)%nat) (regs_upto P names nm user ph) ->
+  Forall reg_wf (regs_upto P names nm user ph)
+  /\ no_accept (regs_upto P names nm user ph)
+  /\ order_respects (regs_upto P names nm user ph).
+Proof.
+  intros Hn Hacc Hk. pose proof (regs_upto_made P names nm user ph) as Hm.
+  split; [eapply Forall_impl; [|exact Hm]; intros v; apply made_by_wf|].
+  split; [|apply (order_respects_made names); assumption].
+  intros v Hv. unfold regs_upto in Hv. apply in_flat_map in Hv. destruct Hv as [d [Hd Hv]].
+  assert (Hda : a_accept (d_args d) = None).
+  { unfold decls_upto in Hd. apply filter_In in Hd. destruct Hd as [Hd _]. unfold all_decls in Hd.
+    apply in_app_or in Hd. destruct Hd as [Hd|Hd]; [exact (default_decls_no_accept _ _ _ _ Hd)|].
+    rewrite Forall_forall in Hacc. exact (Hacc d Hd). }
+  unfold regs_of_decl in Hv. destruct (effective_ctx P nm d) as [[c xonly] isexc].
+  destruct (xonly && negb isexc); [destruct Hv|].
+  assert (G : forall cls, In v (opt_list (reg_of_args names cls (with_ctx (d_args d) c))) -> r_accept v = None).
+  { intros cls H. unfold opt_list in H.
+    destruct (reg_of_args names cls (with_ctx (d_args d) c)) eqn:E; [|destruct H].
+    destruct H as [<-|[]]. rewrite (reg_of_args_accept _ _ _ _ E). exact Hda. }
+  apply in_app_or in Hv. destruct Hv as [Hv|Hv].
+  - destruct xonly; [destruct Hv|exact (G _ Hv)].
+  - destruct isexc; [exact (G _ Hv)|destruct Hv].
+Qed.
 
 (* ------------------------------------------------------------------ *)
 (* non-vacuity: a world satisfying every hypothesis of judge_accepts_model in which an ordinary view touches
@@ -294,9 +388,10 @@ Definition ex_decls : list vdecl :=
    mkDecl DView None false false (mkArgs 1%N 0%N [] [] None false 5%N) 0%N (mkBody true (ARaise 0%N) false)].
 Definition ex_regs14 : list reg := Eval vm_compute in regs_upto spec_params pred_names ex_nm ex_decls 0%N.
 Definition ex_nf (i : N) : exc := mkExc i [8; 10; 6; 0]%N [cn_Exception; cn_HTTPNotFound] 404%N.
+Definition ex_fb (i : N) : exc := mkExc i [9; 10; 6; 0]%N [cn_Exception; cn_HTTPForbidden] 403%N.
 Definition ex_excs : list exc :=
   [mkExc 0%N [7; 6; 0]%N [cn_Exception] 0%N; ex_nf 1000%N; ex_nf 1001%N; ex_nf 1010%N; ex_nf 1011%N; ex_nf 1020%N;
-   ex_nf 1021%N].
+   ex_nf 1021%N; ex_fb 1013%N; ex_fb 1023%N].
 Definition ex_W : world :=
   mkWorld (register_all accept_order_default ex_regs14) (bodies_of spec_params ex_nm ex_decls) ex_excs.
 Definition ex_ri : rinfo :=
@@ -310,7 +405,9 @@ Example judge_accepts_model_nonvacuous :
   /\ isa ex_W cn_Exception ctx_resource = false
   /\ (forall site, In site [site_under; site_tween] ->
         isa ex_W cn_HTTPNotFound (fresh_nf site) = true /\ isa ex_W cn_HTTPNotFound (fresh_pme site) = true
-        /\ isa ex_W cn_Exception (fresh_pme site) = true)
+        /\ isa ex_W cn_Exception (fresh_pme site) = true
+        /\ isa ex_W cn_HTTPForbidden (fresh_forb site) = true /\ isa ex_W cn_Exception (fresh_forb site) = true
+        /\ isa ex_W cn_HTTPNotFound (fresh_forb site) = false)
   /\ run_request spec_params ex_W ex_ri =
        [EBody 5 ctx_resource [None; None; None];
         EProbe (Raise 0) [Some 2005%N; None; None];
@@ -329,10 +426,33 @@ Proof.
   split. { intros e. simpl. nodup_tac. }
   split. { intros e. change (w_excs ex_W) with ex_excs.
            destruct (find_exc_in ex_excs e) as [H|H]; [|rewrite H; constructor].
-           remember (find_exc ex_excs e) as x eqn:Hx. clear Hx. unfold ex_excs, ex_nf in H. simpl in H.
+           remember (find_exc ex_excs e) as x eqn:Hx. clear Hx. unfold ex_excs, ex_nf, ex_fb in H. simpl in H.
            repeat (destruct H as [H|H]; [subst x; simpl; nodup_tac|]). contradiction. }
   split. { vm_compute. reflexivity. }
   split. { intros site Hs. destruct Hs as [Hs|[Hs|Hs]]; [subst site|subst site|destruct Hs];
            vm_compute; repeat split; reflexivity. }
   split; vm_compute; reflexivity.
 Qed.
+
+(* The statement without the premise on secure=False is false of the code as it is (b = false: a permissive call
+   does not check the predicates of a single secured view): the exception view for class 7 carries a permission
+   and the predicate xhr=True; on a request without that header a tween calls
+   request.invoke_exception_view(secure=False) and the view renders the exception although its predicate fails
+   (finding C14-permissive-skips-predicates). *)
+Definition rf_decls : list vdecl :=
+  [mkDecl DView (Some 7%N) true true (mkArgs 1%N 0%N [] [(nm_xhr, [(false, VBool true)])] None true 3%N) 0%N
+          (mkBody false ARet true);
+   mkDecl DView None false false (mkArgs 1%N 0%N [] [] None false 5%N) 0%N (mkBody false (ARaise 0%N) false)].
+Definition rf_regs : list reg := Eval vm_compute in regs_upto spec_params pred_names ex_nm rf_decls 0%N.
+Definition rf_W : world :=
+  mkWorld (register_all accept_order_default rf_regs) (bodies_of spec_params ex_nm rf_decls) ex_excs.
+Definition rf_ri : rinfo :=
+  mkRI (mkReq rm_get [] [] false None false [47%N] [([], [])] true [] [] [] [1; 0]%N [12; 0]%N [])
+       [1; 0]%N [1; 0]%N false None (UCatch false false None) None.
+
+Theorem judge_accepts_model_refuted :
+  sec_of (ri_under rf_ri) = false
+  /\ judge rf_regs rf_W rf_ri (run_request (spec_params_b false) rf_W rf_ri) = false
+  /\ judge rf_regs rf_W rf_ri (run_request (spec_params_b true) rf_W rf_ri) = true
+  /\ spec_winners exc_classifier_id rf_regs (exc_request spec_params rf_W rf_ri 0%N) = [].
+Proof. vm_compute. repeat split; reflexivity. Qed.
